@@ -53,3 +53,18 @@ def rmat(m):
 
 def rvec(v):
     return np.array([fr(x) for x in v], dtype=float)
+
+
+def mean_consistency(md, X, shift):
+    """m(x_i) through build_mean and through __call__ on the translated data, with non-dyadic hyper-parameters: the two code paths are the
+    same function also far from the origin.  Returns the largest difference in units of the mean's scale."""
+    import numpy as np
+    mean, mth = build_mean(md)
+    th = np.array([0.3, 0.7, -1.3, 0.9, 1.7][:len(mth)], dtype=float)
+    Xs = np.asarray(X, dtype=float) + shift
+    mean.pass_spatial_data(Xs)
+    a = np.asarray(mean.build_mean(th), dtype=float)
+    b = np.array([float(np.squeeze(mean(x, th))) for x in Xs])
+    c = np.asarray(mean.mean_and_gradients(th)[0], dtype=float)
+    scale = max(1.0, float(np.max(np.abs(a))))
+    return float(max(np.max(np.abs(a - b)), np.max(np.abs(a - c))) / scale)
